@@ -2,6 +2,7 @@ package utils
 
 import (
 	"context"
+	"runtime"
 	"sync"
 	"sync/atomic"
 )
@@ -27,6 +28,10 @@ type WaterMark struct {
 	winMu   sync.RWMutex // slot updates (R) vs window replacement (W); taken after mu
 	waiters map[uint64]chan struct{}
 	window  atomic.Value // *watermarkWindow
+
+	// advancers counts tryAdvance calls between their inspection of the next slot and
+	// their CAS on doneUntil; Begin waits them out (see awaitAdvance).
+	advancers atomic.Int32
 }
 
 type watermarkWindow struct {
@@ -55,9 +60,26 @@ func (w *WaterMark) Begin(index uint64) {
 	// Count first, publish second: tryAdvance only scans up to lastIndex, so the
 	// index must already be pending when it becomes visible there.
 	w.addCount(index, 1)
+	w.awaitAdvance(index)
 	VerifYield("wm.begin.afterLast")
 	w.setLastIndex(index)
 	w.tryAdvance()
+}
+
+// awaitAdvance closes the window between tryAdvance's look at the slots and its CAS:
+// an advance that saw the slot of index empty before our increment may still be about
+// to move the mark onto index (index == doneUntil+1) or beyond it (index == doneUntil,
+// begun at the mark). The increment happens before the load of advancers and
+// tryAdvance announces itself before it loads the slots, so one of the two sees the
+// other; Begin then returns only once that step has been taken or abandoned.
+func (w *WaterMark) awaitAdvance(index uint64) {
+	for w.advancers.Load() > 0 {
+		if d := w.DoneUntil(); d != index && d+1 != index {
+			return
+		}
+		VerifYield("wm.begin.awaitAdvance")
+		runtime.Gosched()
+	}
 }
 
 // BeginMany works like Begin but accepts multiple indices.
@@ -67,6 +89,9 @@ func (w *WaterMark) BeginMany(indices []uint64) {
 	}
 	for _, idx := range indices {
 		w.addCount(idx, 1)
+	}
+	for _, idx := range indices {
+		w.awaitAdvance(idx)
 	}
 	w.setLastIndex(indices[len(indices)-1])
 	w.tryAdvance()
@@ -182,17 +207,22 @@ func (w *WaterMark) tryAdvance() {
 			w.ensureWindow(next)
 			continue
 		}
+		w.advancers.Add(1)
 		if doneUntil >= win.base && win.slots[doneUntil-win.base].Load() > 0 {
 			// An index begun again while the mark already stood on it (a second
 			// reader with the same timestamp) holds the mark until it is done.
+			w.advancers.Add(-1)
 			return
 		}
 		offset := next - win.base
 		if win.slots[offset].Load() > 0 {
+			w.advancers.Add(-1)
 			return
 		}
 		VerifYield("wm.advance.beforeCAS")
-		if atomic.CompareAndSwapUint64(&w.doneUntil, doneUntil, next) {
+		moved := atomic.CompareAndSwapUint64(&w.doneUntil, doneUntil, next)
+		w.advancers.Add(-1)
+		if moved {
 			w.notifyWaiters(doneUntil, next)
 			continue
 		}
